@@ -33,6 +33,7 @@ repair set the switch to False (or VERIF_C18_NOAVOID=slug1,slug2 / =all) and the
   deriv_near_edge      D4 stencil points inside the table unset       known_deriv_near_edge.json
   extend_grid          D5 np.arange blocks not robust to rounding     known_extend_{overrun_*,grid_*}.json
   adaptive_degenerate  D6 update from a single pending point          known_adaptive_degenerate.json
+  midcall_update       D7 update in the middle of an evaluate call    known_midcall_update_constant.json
 
 The steering predicates mirror the arithmetic of the unchanged tree (np.arange lengths, the pending
 list); they are used to choose inputs and to name the class of a failure, never to decide a verdict.
@@ -90,6 +91,10 @@ AVOID = {
     # D6  adaptive update without a table when all pending evaluations are the same x:
     #     linspace(x, x, n) -> CubicSpline ValueError
     "adaptive_degenerate": True,
+    # D7  pair NONE/CONSTANT: the lower (NONE) batch of a call fires an adaptive update that also extends the
+    #     upper end; the upper entries of the same call then get the boundary value of the NEW table although
+    #     they were classified against the old one (value is neither old boundary, new spline nor f)
+    "midcall_update": True,
 }
 _na = os.environ.get("VERIF_C18_NOAVOID", "")
 if _na:
@@ -879,7 +884,9 @@ class Runner:
         except Exception as e:  # noqa: BLE001
             exc = e
         for b in batches:
-            self._sched(b)
+            # if the call ends in the documented ValueError, whether the batches evaluated before it were
+            # already handed to the adaptive update is not fixed by the documentation
+            self._sched(b, certain=not (want_err and exc is not None))
         self._sim_batches = batches
         if exc is not None:
             if isinstance(exc, ValueError) and want_err and not _exc_through(exc, "_adaptiveInterpolationUpdate"):
@@ -928,7 +935,7 @@ class Runner:
             xj = float(xa[m][j])
             if k >= 2:
                 side, mode = ("lower", self.lo) if k == 2 else ("upper", self.hi)
-                cls = f"call=evaluate R={self.Rc} side={side} mode={mode}"
+                cls = f"call=evaluate R={self.Rc} side={side} mode={mode} update={'midcall' if fired else 'none'}"
             else:
                 cls = f"call=evaluate R={self.Rc}"
             self.fail(sub, cls,
@@ -1543,6 +1550,13 @@ def draw_evaluate(draw, r, region=None, burst=False):
             slug = _predict_bad_update(r, r._eval_batches(xa, below, above, direct))
             if slug and _switch(slug):
                 bad = slug
+            elif AVOID["midcall_update"] and not direct and r.lo == "NONE" and r.hi == "CONSTANT" \
+                    and below.any() and above.any():
+                cnt, pend = _peek_count(r)
+                if cnt is not None:
+                    lowv = r._tree_valid(np.ravel(xa[below]))
+                    if cnt + len(lowv) >= r.T and max(pend + lowv + [tab.rmax]) > tab.rmax:
+                        bad = "D7-midcall-update"
         if bad is None:
             break
         avoided.append(bad)
